@@ -248,6 +248,14 @@ func c04Fanout(c *Check, P string, r *GCRoles) {
 			}
 		}
 	}
+	c04LookupCopy(c, P+".O3", r)
+}
+
+// c04LookupCopy: the subscriber lookup returns a full-length copy (or the live
+// list is only iterated under the subscribers lock). Shared with C07 and C11.
+func c04LookupCopy(c *Check, id string, r *GCRoles) {
+	F := r.Fan
+	lookups := Callers([]*ssa.Function{F}, r.LookupSubs)
 	// the lookup returns a full-length copy of the topic's subscriber list
 	L := r.LookupSubs
 	var lk *ssa.Lookup
@@ -256,7 +264,7 @@ func c04Fanout(c *Check, P string, r *GCRoles) {
 			lk = x
 		}
 	})
-	if c.Floor(P+".O3", "map lookup in the subscriber lookup function", b2i(lk != nil), 1) {
+	if c.Floor(id, "map lookup in the subscriber lookup function", b2i(lk != nil), 1) {
 		isList := func(v ssa.Value) bool {
 			return AllOrigins(v, func(o ssa.Value) bool {
 				if o == ssa.Value(lk) {
@@ -277,7 +285,7 @@ func c04Fanout(c *Check, P string, r *GCRoles) {
 							notFound = append(notFound, t.False)
 						}
 					}
-					c.Report(x.IsNil() && GuardedBy(L, ret, notFound), P+".O3", "LOOKUP-NIL-ONLY-IF-ABSENT", L, ret.Pos(), "return nil", "no subscribers are reported only when the topic has no entry")
+					c.Report(x.IsNil() && GuardedBy(L, ret, notFound), id, "LOOKUP-NIL-ONLY-IF-ABSENT", L, ret.Pos(), "return nil", "no subscribers are reported only when the topic has no entry")
 				case *ssa.MakeSlice:
 					args, ok := IsBuiltinCall(x.Len, "len")
 					okLen := ok && isList(args[0])
@@ -287,9 +295,21 @@ func c04Fanout(c *Check, P string, r *GCRoles) {
 							okCopy = true
 						}
 					}
-					c.Report(okLen && okCopy, P+".O3", "LOOKUP-FULL-COPY", L, ret.Pos(), "return copy", "the returned list is a full-length copy of the topic's subscriber list")
+					c.Report(okLen && okCopy, id, "LOOKUP-FULL-COPY", L, ret.Pos(), "return copy", "the returned list is a full-length copy of the topic's subscriber list")
 				default:
-					c.Report(isList(v), P+".O3", "LOOKUP-FULL-COPY", L, ret.Pos(), "return list", "the returned list is the topic's subscriber list")
+					// the live list may be handed out only if every iteration over it happens under the subscribers lock;
+					// the fan-out iterates in a goroutine after Publish released it, so a copy is required
+					underLock := isList(v)
+					for _, f := range WithAnon(F) {
+						AllInstrs(f, func(in ssa.Instruction) {
+							if ia, ok := in.(*ssa.IndexAddr); ok && AllOrigins(ia.X, ResultOfAny(lookups, 0)) {
+								if _, held := r.LA.Held(in)[r.idSubs]; !held {
+									underLock = false
+								}
+							}
+						})
+					}
+					c.Report(underLock, id, "LOOKUP-FULL-COPY", L, ret.Pos(), "return list", "the lookup hands out the live subscriber list, but the fan-out iterates over it outside the subscribers lock (a concurrent unsubscribe shifts the elements): a full-length copy is required")
 				}
 			}
 		}
@@ -333,54 +353,65 @@ func c04TopicKey(c *Check, P string, r *GCRoles) {
 func c04PublishCopies(c *Check, P string, r *GCRoles) {
 	Pub := r.Publish
 	msgs := Pub.Params[2]
-	// the local slice of copies
+	// a copy of a caller's message: Copy() on an element of the messages parameter
+	isCopyOfCallerMsg := func(v ssa.Value) (bool, ssa.Value) {
+		cp, ok := firstOrigin(v).(*ssa.Call)
+		if !ok || CalleeName(cp) != nCopy {
+			return false, nil
+		}
+		if u, ok := firstOrigin(Receiver(cp)).(*ssa.UnOp); ok && u.Op == token.MUL {
+			if sa, ok := u.X.(*ssa.IndexAddr); ok && FromParam(msgs)(sa.X) && IsFullRangeIndex(sa.Index, sa.X) {
+				return true, sa.Index
+			}
+		}
+		return false, nil
+	}
+	// optional local slice of copies (today's shape): every element store is such a copy, same index, full length
 	var local *ssa.MakeSlice
 	AllInstrs(Pub, func(in ssa.Instruction) {
 		if ms, ok := in.(*ssa.MakeSlice); ok && ms.Type().Underlying().String() == "[]"+tMessagePtr {
 			local = ms
 		}
 	})
-	if !c.Floor(P+".O5", "local slice of copies in Publish", b2i(local != nil), 1) {
-		return
+	isLocal := func(v ssa.Value) bool {
+		return local != nil && AllOrigins(v, func(o ssa.Value) bool { return o == ssa.Value(local) })
 	}
-	isLocal := func(v ssa.Value) bool { return AllOrigins(v, func(o ssa.Value) bool { return o == ssa.Value(local) }) }
-	args, ok := IsBuiltinCall(local.Len, "len")
-	c.Report(ok && FromParam(msgs)(args[0]), P+".O5", "COPIES-LENGTH", Pub, local.Pos(), "copies slice", "as many copies as messages given")
-	nst := 0
-	AllInstrs(Pub, func(in ssa.Instruction) {
-		st, ok := in.(*ssa.Store)
-		if !ok {
-			return
-		}
-		ia, ok := st.Addr.(*ssa.IndexAddr)
-		if !ok || !isLocal(ia.X) {
-			return
-		}
-		nst++
-		cp, isCopy := firstOrigin(st.Val).(*ssa.Call)
-		okC := isCopy && CalleeName(cp) == nCopy
-		if okC {
-			src := firstOrigin(Receiver(cp))
-			okC = false
-			if u, ok := src.(*ssa.UnOp); ok && u.Op == token.MUL {
-				if sa, ok := u.X.(*ssa.IndexAddr); ok {
-					okC = FromParam(msgs)(sa.X) && sa.Index == ia.Index && IsFullRangeIndex(sa.Index, sa.X)
-				}
+	if local != nil {
+		args, ok := IsBuiltinCall(local.Len, "len")
+		c.Report(ok && FromParam(msgs)(args[0]), P+".O5", "COPIES-LENGTH", Pub, local.Pos(), "copies slice", "as many copies as messages given")
+		nst := 0
+		AllInstrs(Pub, func(in ssa.Instruction) {
+			st, ok := in.(*ssa.Store)
+			if !ok {
+				return
 			}
+			ia, ok := st.Addr.(*ssa.IndexAddr)
+			if !ok || !isLocal(ia.X) {
+				return
+			}
+			nst++
+			okC, idx := isCopyOfCallerMsg(st.Val)
+			c.Report(okC && idx == ia.Index, P+".O5", "COPIES-ELEMENT", Pub, st.Pos(), "copies[i]", "element i of the copies is Copy() of the caller's message i (full range)")
+		})
+		c.Floor(P+".O5", "stores into the copies slice", nst, 1)
+	}
+	isCopyElem := func(v ssa.Value) bool {
+		if ok, _ := isCopyOfCallerMsg(v); ok {
+			return true
 		}
-		c.Report(okC, P+".O5", "COPIES-ELEMENT", Pub, st.Pos(), "copies[i]", "element i of the copies is Copy() of the caller's message i (full range)")
-	})
-	c.Floor(P+".O5", "stores into the copies slice", nst, 1)
-	for i, cl := range Callers([]*ssa.Function{Pub}, r.Fan) {
-		a := firstOrigin(cl.Common().Args[2])
-		okA := false
-		if u, ok := a.(*ssa.UnOp); ok && u.Op == token.MUL {
+		if u, ok := firstOrigin(v).(*ssa.UnOp); ok && u.Op == token.MUL {
 			if ia, ok := u.X.(*ssa.IndexAddr); ok {
-				okA = isLocal(ia.X) && IsFullRangeIndex(ia.Index, ia.X)
+				return isLocal(ia.X) && IsFullRangeIndex(ia.Index, ia.X)
 			}
 		}
-		c.Report(okA, P+".O5", "PUBLISH-COPIES", Pub, cl.Pos(), fmt.Sprintf("fan-out call#%d", i), "what is handed to the subscribers is the copy, for every index (the publisher's original is never shared)")
+		return false
 	}
+	fans := Callers([]*ssa.Function{Pub}, r.Fan)
+	c.Floor(P+".O5", "fan-out calls in Publish", len(fans), 1)
+	for i, cl := range fans {
+		c.Report(isCopyElem(cl.Common().Args[2]), P+".O5", "PUBLISH-COPIES", Pub, cl.Pos(), fmt.Sprintf("fan-out call#%d", i), "what is handed to the subscribers is a copy of the caller's message, for every index (the publisher's original is never shared)")
+	}
+	nper := 0
 	AllInstrs(Pub, func(in ssa.Instruction) {
 		mu, ok := in.(*ssa.MapUpdate)
 		if !ok || !r.isPers(mu.Map) {
@@ -395,16 +426,29 @@ func c04PublishCopies(c *Check, P string, r *GCRoles) {
 				return // make([]T, 0): initialisation of the topic's log
 			}
 		}
+		nper++
 		call, isCall := v.(*ssa.Call)
 		okP := false
 		if isCall {
 			if args, isApp := IsBuiltinCall(call, "append"); isApp && len(args) == 2 {
 				lk, isLk := firstOrigin(args[0]).(*ssa.Lookup)
-				okP = isLk && r.isPers(lk.X) && sameValue(lk.Index, mu.Key) && isLocal(args[1])
+				okBase := isLk && r.isPers(lk.X) && sameValue(lk.Index, mu.Key)
+				okEl := isLocal(args[1])
+				if !okEl {
+					els := VariadicElems(args[1])
+					okEl = len(els) > 0
+					for _, e := range els {
+						if !isCopyElem(e) {
+							okEl = false
+						}
+					}
+				}
+				okP = okBase && okEl
 			}
 		}
-		c.Report(okP, P+".O5", "PERSIST-COPIES", Pub, in.Pos(), "persisted append", "the persisted log is extended with exactly the copies of this batch")
+		c.Report(okP, P+".O5", "PERSIST-COPIES", Pub, in.Pos(), "persisted append", "the persisted log is extended with exactly the copies of this batch (never the caller's objects)")
 	})
+	c.Floor(P+".O5", "append to the persisted log in Publish", nper, 1)
 }
 
 func c04Register(c *Check, P string, r *GCRoles) {
